@@ -78,6 +78,18 @@ Definition centre_rows (l : list (string * Q)) : list (string * Q) :=
 Definition centred (l : list (string * Q)) : Prop :=
   centre_rows l <> [] -> median_of_chrom_medians (centre_rows l) == 0.
 
+(* the final centring shift s moves a bin across the null-coverage cut-off: it has a depth (when the table has
+   the column) and its log2 lies on one side of -15 before and on the other side after the shift *)
+Definition crosses (c : cfg) (s : Q) (sr : srow) : Prop :=
+  ~ (has_sdepth c = true /\ s_depth sr == 0) /\
+  ((s_log2 sr < -15 /\ -15 <= s_log2 sr + s) \/ (-15 <= s_log2 sr /\ s_log2 sr + s < -15)).
+
+(* a class of bins (off-target by gene name, or on-target) whose residual vector the code hands to
+   biweight_midvariance is empty although the class has bins: the variance is NaN and so is every weight of the
+   class (open finding c04-weight-nan-no-usable-target).  [l]: the bins after the reference was subtracted. *)
+Definition class_all_null (c : cfg) (anti : bool) (l : list brow) : Prop :=
+  forall b, In b l -> is_anti_gene b = anti -> null_cov_b c (fst b) = true.
+
 (* ---- rolling median over an order ---------------------------------------------------------------- *)
 
 (* the signal continued by reflection at both ends (the end value is repeated): index i may run
